@@ -10,6 +10,8 @@ mod e3_hist;
 mod e3_times;
 #[path = "../../shared/e3_async.rs"]
 mod e3_async;
+#[path = "../../shared/e3_wide.rs"]
+mod e3_wide;
 #[path = "../../shared/e3_main.rs"]
 mod e3_main;
 
